@@ -95,6 +95,8 @@ func (c *cache) flushScheduler() {
 						for _, queued := range b {
 							c.flushObjs.Delete(queued)
 						}
+						// the current address may be not queued yet
+						c.flushObjs.Delete(addr)
 						break addrLoop
 					case c.flushCh <- b:
 					case <-c.closeCh:
